@@ -56,11 +56,22 @@ QUICK_KNOBS = {'n_min': 3, 'n_max': 4, 'late_p': 0.0, 'trigger_p': 0.0, 'profile
 QUICK_COUNT = {'quick': 120, 'thorough': 2000}
 
 
+# and a family where the HOST of a peer reboots (instances alone on their node): the monotonic clock of the new
+# incarnation starts again near zero; restarts slower and quicker than the detection
+REBOOT_KNOBS = {'n_min': 3, 'n_max': 4, 'max_nodes': 4, 'late_p': 0.0, 'trigger_p': 0.0, 'host_reboot_p': 1.0,
+                'fixed_script': [[{'kind': 'restart', 'down': (25.0, 60.0), 'gap_ticks': [2, 4]}],
+                                 [{'kind': 'restart', 'down': (0.5, 8.0), 'gap_ticks': [2, 4]}],
+                                 [{'kind': 'restart', 'down': (25.0, 60.0), 'gap_ticks': [2, 4]}, {'kind': 'crash'}]],
+                'apps': {'n_apps': (1, 2), 'n_progs': (1, 3), 'startsecs': (0, 4)}}
+REBOOT_COUNT = {'quick': 100, 'thorough': 2000}
+
+
 def plan(tier, seed):
     # two workload families: membership faults, and instance losses in the middle of application activity
     return [{'seed': seed * 1000003 + i, 'family': 'apps' if i % 3 == 2 else 'membership'}
             for i in range(COUNT[tier])] + \
-        [{'seed': seed * 1000003 + 700000 + i, 'family': 'quick-restart-then-silence'} for i in range(QUICK_COUNT[tier])]
+        [{'seed': seed * 1000003 + 700000 + i, 'family': 'quick-restart-then-silence'} for i in range(QUICK_COUNT[tier])] + \
+        [{'seed': seed * 1000003 + 600000 + i, 'family': 'host-reboot'} for i in range(REBOOT_COUNT[tier])]
 
 
 def run_case(case):
@@ -69,6 +80,8 @@ def run_case(case):
         run = Run(case, KNOBS, [mon])
     elif case['family'] == 'quick-restart-then-silence':
         run = Run(case, QUICK_KNOBS, [mon])
+    elif case['family'] == 'host-reboot':
+        run = Run(case, REBOOT_KNOBS, [mon])
     else:
         from workloads.apps import Run as AppsRun
         run = AppsRun(case, APPS_KNOBS, [mon])
